@@ -43,12 +43,21 @@ func VH_CONC() {
 	done := make(chan int, nw)
 	firstAck := make(chan struct{}, nw*nc)
 	errs := make([]error, nw*nc)
+	afterAck := vf.Param("AFTERACK", 0) == 1
+	waitSecond := afterAck && vf.Param("SECOND", 0) == 1 && nc >= 2
+	began := make(chan struct{}, 1)
 	for w := 0; w < nw; w++ {
 		w := w
 		go func() {
 			for c := 0; c < nc; c++ {
 				i := w*nc + c
 				last := c == nc-1
+				if waitSecond && w == 0 && c == 1 {
+					<-began // writer 0's second commit starts after the reader's snapshot was taken
+					if vf.Param("ZONE", 0) == 1 {
+						vf.Record("zone", 1) // (jobs with ZoneOnly explore schedules from here on)
+					}
+				}
 				errs[i] = db.Update(func(txn *Txn) error {
 					if e := txn.Set(keys[w], vals[i]); e != nil {
 						return e
@@ -58,14 +67,13 @@ func VH_CONC() {
 					}
 					return nil
 				})
-				if w == 0 && c == 0 {
-					firstAck <- struct{}{}
+				if w == 0 && c < 2 {
+					firstAck <- struct{}{} // acknowledgement of writer 0's first and second commit
 				}
 			}
 			done <- w
 		}()
 	}
-	afterAck := vf.Param("AFTERACK", 0) == 1
 	if afterAck {
 		<-firstAck // the reader begins after writer 0's first commit was acknowledged
 	}
@@ -74,6 +82,10 @@ func VH_CONC() {
 	var ga, gs []byte
 	var oka, oks bool
 	rerr := db.View(func(txn *Txn) error {
+		if waitSecond {
+			began <- struct{}{}
+			<-firstAck // the reader began before, and reads after, writer 0's second commit was acknowledged
+		}
 		ga, oka = txn.Get(keys[0])
 		gs, oks = txn.Get("s")
 		return nil
